@@ -1695,9 +1695,9 @@ def _real_fn(ip, name, args):
 
 
 def _finfo(ip):
-    """np.finfo(float): eps is a positive constant below 1 (its value 2**-52 is not needed by any contract)"""
+    """np.finfo(float): eps = 2**-52 (IEEE double)"""
     eps = z3.Real('FLOAT_EPS')
-    ip.add_pc(z3.And(eps > 0, eps < 1))
+    ip.add_pc(eps == z3.RealVal(1) / z3.RealVal(2 ** 52))
     return Obj('finfo', {'eps': eps, 'tiny': z3.Real('FLOAT_TINY'), 'max': z3.Real('FLOAT_MAX')})
 
 
